@@ -191,18 +191,39 @@ pub fn main() {
     run.require_counter("hook_events");
     let shards = n_shards(&run);
     let run = &run;
+    let statics = static_family(run);
+    let statics = &statics;
     std::thread::scope(|sc| {
         for shard in 0..shards {
             sc.spawn(move || {
                 let mut r = shard_rng(run, 30, shard);
                 let s1ts = s1::model();
                 let s1schemas: Vec<AnySchema> = (0..=3).map(|n| build(None, n).unwrap()).collect();
+                // the generated derive-built family (harness/gens), each member with 0..3 recorders like S1
+                let family: Vec<(&'static str, Arc<vh_model::TypeSystem>, Vec<AnySchema>)> = statics
+                    .iter()
+                    .filter_map(|m| m.exec.as_ref().map(|e| (m, e)))
+                    .map(|(m, e)| {
+                        let stacks = (0..=3usize)
+                            .map(|n| AnySchema::Gen(e.with_extensions((1..=n).map(|k| Arc::new(Recorder(k)) as Arc<dyn ExtensionFactory>).collect())))
+                            .collect();
+                        (m.name, m.ts.clone(), stacks)
+                    })
+                    .collect();
                 let mut dynamic: Option<(Arc<vh_model::TypeSystem>, Vec<AnySchema>)> = None;
                 let mut i = shard;
                 while i < cases {
                     i += shards;
                     let (ts, schemas) = if r.bool() {
-                        (s1ts.clone(), s1schemas.clone())
+                        // static flavour: S1, or (a third of these) a member of the generated family
+                        if !family.is_empty() && r.chance(1, 3) {
+                            let f = &family[r.below(family.len())];
+                            run.count(&format!("static_cases_{}", f.0), 1);
+                            (f.1.clone(), f.2.clone())
+                        } else {
+                            run.count("static_cases_S1", 1);
+                            (s1ts.clone(), s1schemas.clone())
+                        }
                     } else {
                         if dynamic.is_none() || r.chance(1, 8) {
                             let ts = Arc::new(gen_type_system(&mut r, &ts_opts(run)));
@@ -248,6 +269,7 @@ pub fn main() {
             });
         }
     });
+    run.extra("static_schemas", static_family_extra(statics));
     run.finish_code_exit();
 }
 
